@@ -527,6 +527,61 @@ func suiteConvert(tier string, seed uint64, model string) *Report {
 		}
 	}
 
+	// directed: an empty slice with spare capacity is copied too (appending to the copy must not
+	// write into storage the original owns); times keep their zone through Generify / Simplify
+	for _, cp := range copiers[:2] {
+		for k := 0; k < 5; k++ {
+			rep.Evaluations++
+			top := make([]any, 0, 4)
+			inner := make([]any, 0, 2)
+			o := map[string]any{"a": top, "l": []any{inner, int64(k)}}
+			out := safe(func() string {
+				c, _ := cp.f(o).(map[string]any)
+				if c == nil {
+					return "not a map"
+				}
+				if ca, ok := c["a"].([]any); ok {
+					_ = append(ca, "X")
+				}
+				if cl, ok := c["l"].([]any); ok && len(cl) > 0 {
+					if ci, ok := cl[0].([]any); ok {
+						_ = append(ci, "Y")
+					}
+				}
+				if top[:1][0] != nil || inner[:1][0] != nil {
+					return fmt.Sprintf("appending to the copy wrote %v / %v into the original's storage", top[:1][0], inner[:1][0])
+				}
+				return "ok"
+			})
+			if out != "ok" {
+				rep.Add(Disagreement{Case: "empty slices with spare capacity", Where: cp.name, Kind: "impl-law:mutate-copy-changes-original", Impl: out, Model: "independent storage"})
+			}
+		}
+	}
+	for k := 0; k < 6; k++ {
+		rep.Evaluations++
+		zone := time.FixedZone("z", (k-3)*3600)
+		tm := time.Date(2021, 3, 5, 10, 11, 12, 0, zone)
+		v := map[string]any{"t": tm, "l": []any{tm}}
+		out := safe(func() string {
+			g := alt.Generify(v, &keep)
+			back, _ := g.Simplify().(map[string]any)
+			bt, _ := back["t"].(time.Time)
+			if bt != tm {
+				return fmt.Sprintf("time came back as %v", back["t"])
+			}
+			o := keep
+			o.TimeFormat = time.RFC3339
+			if a, b := oj.JSON(v, &o), oj.JSON(g, &o); a != b {
+				return "writers differ: " + a + " vs " + b
+			}
+			return "ok"
+		})
+		if out != "ok" {
+			rep.Add(Disagreement{Case: tm.String(), Where: "alt.Generify/Simplify (time.Time)", Kind: "impl-law:roundtrip", Impl: out, Model: tm.String()})
+		}
+	}
+
 	// ---- gen.Parser output = Generify(oj.Parser output)
 	var docs [][]byte
 	for _, s := range []string{"0", "-0", "1.5", "1e3", "9223372036854775807", "-9223372036854775808", "9223372036854775808",
